@@ -60,12 +60,15 @@ class SimFile(object):
         self._append = 'a' in mode
         self._can_read = 'r' in mode or '+' in mode
         self._can_write = 'w' in mode or 'a' in mode or '+' in mode
+        # a handle is bound to the storage it was opened on (an inode), not to the name: renaming or replacing the
+        # directory entry afterwards does not change what an open handle reads
+        self._data = fs.files[name]
         if self._append:
-            self._pos = len(fs.files[name])
+            self._pos = len(self._data)
 
     # -- helpers
     def _buf(self):
-        return self.fs.files[self.name]
+        return self._data
 
     def _check(self):
         if self._closed:
@@ -286,6 +289,11 @@ class SimFS(object):
 
     def get(self, name):
         return bytes(self.files[name])
+
+    def rename(self, old, new):
+        """The directory entry moves; handles opened on `old` keep reading the same storage."""
+        self.files[new] = self.files.pop(old)
+        self.faults_fired['rename-while-open'] = self.faults_fired.get('rename-while-open', 0) + 1
 
     def crash(self, name, cut):
         del self.files[name][cut:]
